@@ -5,4 +5,4 @@ CONSTANTS
   Payloads <- Pay2
   ByzDigests <- D3
   AllowOmit = FALSE
-INVARIANTS Agreement Validity Consistency
+INVARIANTS Agreement Validity Consistency PrintBehaviour
